@@ -144,12 +144,26 @@ class Sc:
                 if want != have:
                     if want and not have:
                         sig = "surviving-ai-line-lost"
+                    elif have and not want and self.is_human_tweak_of(t, have):
+                        sig = "human-tweak-of-ai-line-still-ai"
                     elif have and not want:
                         sig = "human-line-became-ai"
                     else:
                         sig = "ai-line-credited-to-other-session"
                     self.failures.append((sig, {"where": where, "path": p, "line": i, "text": t, "want": g, "have": have,
                                                 "log": self.log[-10:]}))
+
+    def is_human_tweak_of(self, text, have_hash):
+        """`text` is `<old line> m<k>`: a person's in-place modification of a line that session wrote"""
+        import re as _re
+        m = _re.match(r"^(.*) m\d+$", text)
+        while m:
+            base = m.group(1)
+            g = self.ghost.get(norm(base))
+            if g and S.hash_of(g) == have_hash:
+                return True
+            m = _re.match(r"^(.*) m\d+$", base)
+        return False
 
     # ------------------------------------------------------------ templates
     def base(self, nfiles=2, nlines=8):
@@ -177,6 +191,7 @@ class Sc:
 
     def upstream_commits(self, n, mode):
         """mode: other-file | above | below | same-file-both"""
+        self.upmode = mode
         for i in range(n):
             if mode == "other-file":
                 self.edit("human", "upstream.txt", where="bottom")
@@ -399,16 +414,24 @@ TEMPLATES = [
 
 
 def family(tname, sc):
-    """failure-signature family: the operation, refined by the history shape that matters"""
-    if tname.startswith("rebase") or tname.startswith("conflict"):
-        base = "rebase-conflict-" + tname.split("-", 1)[1] if tname.startswith("conflict") else "rebase"
-        return base + ("[range-rewrites-own-files]" if sc.overlap or tname.startswith("conflict") else "[disjoint-files]")
-    if tname.startswith("cherry-pick"):
-        return tname + ("[range-rewrites-own-files]" if sc.overlap and tname == "cherry-pick-range" else "")
+    """failure-signature family: the operation, refined by the history shape that matters. For rebase
+    and cherry-pick the note-copy shortcut applies when upstream did not touch the files the range
+    touched ("upstream-other-file"); otherwise the content-replay path runs, which carries known
+    findings."""
+    up = getattr(sc, "upmode", None)
+    if tname.startswith("conflict"):
+        return "rebase-" + tname
+    if tname.startswith("rebase-i-"):
+        return "rebase-interactive"          # reorder/squash/fixup/drop change the commit mapping: always replayed
+    if tname.startswith("rebase") or tname.startswith("cherry-pick"):
+        base = "rebase" if tname.startswith("rebase") else tname
+        if up is None:
+            return base
+        return base + ("[upstream-other-file]" if up == "other-file" else "[upstream-touches-tracked-file]")
     return tname
 
 
-def run_one(args):
+def run_one(args, _attempt=0):
     seed, tname = args
     fn = dict(TEMPLATES)[tname]
     try:
@@ -416,8 +439,11 @@ def run_one(args):
             sc = Sc(env, seed)
             tag = fn(sc)
             fam = family(tname, sc)
-            return tname, tag, [(f"{fam}:{sig}", d) for sig, d in sc.failures], sc.log
+            return tname, tag, [(sig if sig == "human-tweak-of-ai-line-still-ai" else f"{fam}:{sig}", d)
+                                for sig, d in sc.failures], sc.log
     except Exception as ex:
+        if _attempt < 2:
+            return run_one(args, _attempt + 1)     # transient environment trouble (busy machine): retry
         return tname, "exception", [("runner-exception", {"error": repr(ex), "trace": traceback.format_exc()[-1500:]})], []
 
 
